@@ -163,8 +163,24 @@ package ecscache
 //@   ensures a-miss-changes-nothing: resp == nil ==> cr.subnet == old(cr.subnet) && cr.isECSDeclined == old(cr.isECSDeclined) && cr.host == old(cr.host) &&
 //@             cr.qType == old(cr.qType) && cr.qClass == old(cr.qClass) && cr.reqDO == old(cr.reqDO)
 
-//@ func isCacheable
+// C04: "only complete NOERROR/NODATA, NXDOMAIN and short-lived SERVFAIL answers
+// are cached at all".  A NOERROR answer is complete when its answer section
+// has a record of the question's type, preceded only by CNAME / SIG records
+// (an answer), or consists of CNAME / SIG records only and the authority
+// section has an SOA record (a valid NODATA answer, RFC 2308).
+//@ func isCacheableNOERROR
+//@   property C04
+//@   requires resp != nil && len(resp.Question) >= 1 && validRRs(resp.Answer) && validRRs(resp.Ns)
 //@   modifies nothing
+//@   ensures an-answer-or-a-valid-nodata-answer-and-nothing-else: ok == (answersTheQuestion(resp) || validNoData(resp))
+//@   loop 1 invariant -1 <= #i && #i < len(resp.Answer) && (forall j int :: 0 <= j && j <= #i ==> hdrOf(resp.Answer[j]).Rrtype != resp.Question[0].Qtype && cnameOrSig(resp.Answer[j]))
+//@   loop 2 invariant -1 <= #i && #i < len(resp.Ns) && (forall j int :: 0 <= j && j < len(resp.Answer) ==> hdrOf(resp.Answer[j]).Rrtype != resp.Question[0].Qtype && cnameOrSig(resp.Answer[j])) &&
+//@          (forall k int :: 0 <= k && k <= #i ==> !isptr(resp.Ns[k], dns.SOA))
+//@ func isCacheable
+//@   property C04
+//@   requires msg != nil && validRRs(msg.Answer) && validRRs(msg.Ns)
+//@   modifies nothing
+//@   ensures only-complete-answers: ok == cacheable(msg)
 
 // Only extended-DNS-error options survive on the way back to the client.
 //@ func isNotEDE
@@ -213,6 +229,7 @@ package ecscache
 // What the cache keeps is a message of its own, not the response that is then
 // given the client's own subnet option and written out.
 //@   atcall SetWithExpire assert the-cache-keeps-its-own-copy: arg2 != nil && arg2.msg != nil && arg2.msg != resp
+//@   ensures only-complete-answers-are-cached-at-all: (exists c any :: csets[c] != old(csets[c])) ==> old(cacheable(resp))
 //@   ensures only-the-matching-cache: forall c any :: c != (respIsECSDependent ? mw.ecsCache : mw.cache) ==> csets[c] == old(csets[c])
 //@   ensures leaves-the-response-alone: old(ecsNone(resp)) ==> ecsNone(resp)
 //@   ensures resp.Extra == old(resp.Extra) && (forall i int :: 0 <= i && i < len(resp.Extra) ==> resp.Extra[i] == old(resp.Extra[i]))
